@@ -345,7 +345,7 @@ func RunXProd(run *ev.Run, only string) int {
 		t := c.tree()
 		after, r, err := fshist.RunIn(bin, t, dir, "", nil, append([]string{"gen"}, pats...)...)
 		os.RemoveAll(dir)
-		if err != nil || r == nil {
+		if err != nil || r == nil || r.Exit < 0 { // a run ended by a signal or the deadline gives no verdict
 			return nil
 		}
 		created, changed, _ := fshist.Diff(t, after)
